@@ -65,6 +65,7 @@ package searcher
 //@   at return: ghost s.last = ite(result1 == nil && result0 != nil, dmKey(result0), s.last)
 //@   at return: ghost s.done = s.done || (result1 == nil && result0 == nil)
 //@   ensures implies(result1 == nil, poolApart(ctx, s) && conjInv(s) && s.initialized)
+//@   ensures s.currs == old(s.currs) && s.searchers == old(s.searchers) && s.scorer == old(s.scorer)
 //@   ensures implies(result1 == nil && result0 != nil, ascending(old(s.started), old(s.last), result0) && s.started && s.last == dmKey(result0))
 //@   ensures implies(result1 == nil && result0 != nil && old(s.initialized), len(s.searchers) > 0 && forall(k, 0, len(s.searchers), old(s.currs[k]) != nil && dmKey(result0) >= old(dmKey(s.currs[k]))))
 //@   ensures implies(result1 == nil && result0 == nil, s.done)
